@@ -123,6 +123,8 @@ def judge(args):
     tool = cfg["tool"]
     kind = case_kind(case)
     exp_log = tm.noneify(case["log"], cfg["par"].get("dflt") == "none") if tool in tm.NONE_TOOLS else case["log"]
+    if cfg["par"].get("inone"):      # reduce(..., initial=None): the expected log with the initial object spelled None
+        exp_log = tm.noneify_nodes(case["log"], ("initial",))
     out = {"viol": [], "mach": [], "n": {}}
 
     def cnt(k, v=1):
@@ -547,6 +549,23 @@ def check(prop, tier, seed):
         sv = SubVerdict(v, tee_map, "tee")
         eng_tee.check("C09", "mini", seed, into=sv)
         sub["tee"] = {k: (sv.coverage_out or {}).get(k) for k in ("states", "transitions", "edge_cover_paths", "traces_validated_by_TLC_against_TeeObs")}
+    if prop == "C01":
+        # the number of children is a parameter like any other: itertools.tee(it, 0) is the empty tuple, n=1 one child
+        import itertools as _it  # noqa: PLC0415
+        from .driver import Accounting, Task  # noqa: PLC0415
+        L_ = tm.load_lib()
+        for n_ in (0, 1, 2):
+            want = len(_it.tee(iter([1, 2]), n_))
+            try:
+                handle = L_.tee([1, 2], n=n_)
+                got = len(handle)
+                items = [Task(L_.list(ch), Accounting()).run()[1] for ch in handle]
+                ok = got == want and all(x == [1, 2] for x in items)
+                obs = {"children": got, "items": items}
+            except Exception as ex:  # noqa: BLE001
+                ok, obs = False, repr(ex)
+            if not ok:
+                v.violation("C01/tee/number-of-children-differs-from-itertools", {"engine": "scenario", "cfg": {"n": n_}, "expected": {"children": want}, "observed": obs})
     if prop in ("C01", "C04", "C05", "C06"):
         sub["beyond_bounds"] = beyond_bounds(prop, tier, seed, v)
     if prop == "C19":
